@@ -60,7 +60,7 @@ def main():
         meta['steps']['demo_modified_rc'] = rc1
         meta['steps']['demo_modified_tail'] = out1.strip().splitlines()[-6:]
         junit = wt / 'junit.xml'
-        rc, out = run([PY, '-m', 'pytest', '-ra', '-q', '-p', 'no:cacheprovider', '--timeout=900', '--continue-on-collection-errors',
+        rc, out = run([PY, '-m', 'pytest', '-ra', '-q', '-p', 'no:cacheprovider', '--timeout=900', '--continue-on-collection-errors', '-n', '4',
                        f"--junitxml={junit}"], cwd=wt, env=env, timeout=3000)
         base = json.load(open('/root/.vp/BASELINE.json'))
         stable = set(base['stable_pass'])
